@@ -76,3 +76,22 @@ Theorem C01_quad_area_centroid_is_polygon_centroid : forall p0 p1 p2 p3,
   v2y (quad_centroid2 p0 p1 p2 p3) == ((v2y p0 + v2y p1) * cr p0 p1 + (v2y p1 + v2y p2) * cr p1 p2 + (v2y p2 + v2y p3) * cr p2 p3 + (v2y p3 + v2y p0) * cr p3 p0) / (3 * A2).
 Proof. exact quad_centroid2_is_polygon_centroid. Qed.
 Print Assumptions C01_quad_area_centroid_is_polygon_centroid.
+
+(* hole merging (hand model HoleMerge.v of Polygon2D._merge_boundary_and_hole, run against it for every bridge tried): whatever
+   pair of vertices the bridge joins, the merged loop's signed shoelace sum is the boundary's plus the hole's - so with opposite
+   windings a face with holes reports boundary area minus hole areas; also for any number of holes merged one after the other *)
+From LBG Require Import HoleMerge.
+
+Theorem C01_hole_merge_conserves_signed_area : forall b h i j d, (i < length b)%nat -> (j < length h)%nat ->
+  sh2 (merge b h i j d) == sh2 b + sh2 h.
+Proof. exact merge_conserves_signed_area. Qed.
+Print Assumptions C01_hole_merge_conserves_signed_area.
+
+Theorem C01_merging_all_holes_conserves_signed_area : forall d xs b, valid b d xs ->
+  sh2 (fold_left (step d) xs b) == sh2 b + fold_right Qplus 0 (map (fun x => sh2 (fst (fst x))) xs).
+Proof. exact merge_all_conserves_signed_area. Qed.
+Print Assumptions C01_merging_all_holes_conserves_signed_area.
+
+Example C01_hole_merge_nonvacuous :
+  sh2 (merge [mkV2 0 0; mkV2 6 0; mkV2 6 6; mkV2 0 6] [mkV2 2 2; mkV2 2 4; mkV2 4 4; mkV2 4 2] 1 2 (mkV2 0 0)) == 72 - 8.
+Proof. vm_compute. reflexivity. Qed.
